@@ -20,7 +20,7 @@ import os
 import token
 import tokenize
 
-from cutplace import _compat
+from cutplace import _compat, errors
 
 #: Mapping for value of :option:`--log` to logging level.
 LOG_LEVEL_NAME_TO_LEVEL_MAP = {
@@ -71,8 +71,24 @@ def validated_python_name(name, value):
     return result
 
 
+class TokenizeError(errors.InterfaceError, tokenize.TokenError):
+    """
+    Error raised by :py:func:`generated_tokens` in case a text from the CID
+    cannot be split into tokens. It is both an
+    :py:exc:`cutplace.errors.InterfaceError` (so a broken CID never fails
+    with an internal error) and a :py:exc:`tokenize.TokenError` (for code that
+    already handles the latter).
+    """
+
+    pass
+
+
 def generated_tokens(text):
-    toky = list(tokenize.generate_tokens(_compat.token_io_readline(text)))
+    try:
+        toky = list(tokenize.generate_tokens(_compat.token_io_readline(text)))
+    except (tokenize.TokenError, SyntaxError, UnicodeError) as error:
+        # For example an unterminated string, an unbalanced bracket or a broken number like "0x".
+        raise TokenizeError("cannot split %s into tokens: %s" % (_compat.text_repr(text), error))
     if len(toky) >= 2 and is_newline_token(toky[-2]) and is_eof_token(toky[-1]):
         # HACK: Remove newline that generated_tokens() adds starting with Python 3.x but not before.
         del toky[-2]
